@@ -156,6 +156,40 @@ def vlq_decenc(L: int, twin: bool = False, real: bool = False):
     return check_vlq_decenc, {"b": bytes([0x80, 0x40] + [0] * L)[:L] if L >= 2 else b"\x05"}
 
 
+def wire_list_sizes(kind: str, n: int, twin: bool = False, real: bool = False):
+    """Wire messages with a list field survive encode-then-decode for list sizes well beyond what the node itself sends
+    (n concrete per instance, contents with symbolic bytes)."""
+    ser, dt, sg, ms, H, mk = _env(real)
+    from ipaddress import IPv6Address
+
+    def check_wire_list(a: int, b: int) -> bool:
+        """
+        post: _
+        """
+        if not (0 <= a <= 255 and 0 <= b <= 255):
+            return True
+        if kind == "get_blocks":
+            m = ms.GetBlocksMessage([bytes([a if j == 0 else 7, j % 256, j // 256]) + b"\x11" * 29 for j in range(n)], bytes([b]) + b"\x13" * 31)
+        elif kind == "inventory":
+            m = ms.InventoryMessage([ms.InventoryItem(ms.DATA_BLOCK, bytes([a if j == 0 else 7, j % 256, j // 256]) + b"\x12" * 29) for j in range(n)])
+        elif kind == "peers":
+            m = ms.PeersMessage([ms.Peer(a * 256 + b, IPv6Address(bytes([0x20, 1, j % 256, j // 256]) + b"\x00" * 12), 1000 + j) for j in range(n)])
+        else:
+            m = ms.HelloMessage([ms.SupportedVersion((a + j) % 256) for j in range(n)], IPv6Address("::1"), 1, IPv6Address("::2"), 2,
+                                7, bytes([b]))
+        enc = m.serialize()
+        f = mk(enc + b"\x99")
+        try:
+            y = ms.Message.stream_deserialize(f)
+        except Exception:
+            return False
+        if twin:
+            return False
+        return f.tell() == len(enc) and fields(y) == fields(m) and y.serialize() == enc
+
+    return check_wire_list, {"a": 1, "b": 2}
+
+
 def list_prefix(lo: int, hi: int, twin: bool = False, real: bool = False):
     """The length prefix of every serialized list is the VLQ encoding of its length, and the list decodes back to the
     same number of elements - for every list length in [lo, hi) (symbolic)."""
@@ -449,7 +483,14 @@ def encdec(shape: str, wire: bool = False, w: int = 0, hbits: int = 27, twin: bo
         if eid is not None:
             if x.hash() != eid or y.hash() != eid:
                 return False
-        return y.serialize() == enc
+        if y.serialize() != enc:
+            return False
+        # an object built in memory whose content is changed afterwards is known under the id of its CURRENT encoding
+        if type(x).__name__ == "Transaction" and len(x.outputs) > 0:
+            x.outputs = x.outputs + [x.outputs[0]]
+            if x.hash() != H(x.serialize()) or x.hash() == eid:
+                return False
+        return True
 
     return check_encdec, {"vs": witness(build)}
 
@@ -681,6 +722,11 @@ def obligations(tier: str, known: List[str]) -> List[Ob]:
                           timeout=300 if not thorough else 900))
     obs.append(twin_of(obs[-1]))
     obs.append(Ob("d.id-of-objects-read-from-the-store", C_D, "from_store", {}, timeout=600))
+    for kind in ("get_blocks", "inventory", "peers", "hello"):
+        for n in ((3, 63, 64, 70, 127, 128, 129, 200, 500, 501) if thorough else (64, 129, 500)):
+            if kind == "hello" and n > 255:
+                continue
+            obs.append(Ob("e.list-size[%s,n=%d]" % (kind, n), C_E, "wire_list_sizes", {"kind": kind, "n": n}, timeout=600))
     # c. fully symbolic small strings
     for cls, (q, t) in FREE.items():
         for L in (q + t if thorough else q):
